@@ -56,7 +56,8 @@ WIRES = {
             ("C19-FILL-OPTION", 'wave3.fill_option_rule(run, f, "C19-FILL-OPTION")')],
     "C21": [("C21-INNER-REACHES-OS", 'wave3.inner_reaches_os_rule(run, f, "C21-INNER-REACHES-OS")')],
     "C20": [("C20-POLL-EVERY-ROUND", 'wave2.poll_every_round_rule(run, f, "C20-POLL-EVERY-ROUND")'),
-            ("C20-FRESH-EVENTS", 'wave3.fresh_events_rule(run, f, "C20-FRESH-EVENTS")')],
+            ("C20-FRESH-EVENTS", 'wave3.fresh_events_rule(run, f, "C20-FRESH-EVENTS")'),
+            ("C20-WAIT-IN-SYSCALL", 'wave3.wait_in_syscall_rule(run, f, "C20-WAIT-IN-SYSCALL")')],
     "C24": [("C24-FAULT-SIGNALS-UNBLOCKED", 'wave2.fault_signals_unblocked_rule(run, f, "C24-FAULT-SIGNALS-UNBLOCKED")'),
             ("C24-ALWAYS-REDIRECTS", 'wave3.always_redirects_rule(run, f, "C24-ALWAYS-REDIRECTS")'),
             ("C24-SUSPENDER-POPPED", 'wave3.suspender_popped_rule(run, f, "C24-SUSPENDER-POPPED")'),
